@@ -46,7 +46,10 @@ def checker (model : Bool) : Checker where
         | none, none => false) && obsLen == some l.length
     let aliasOk : Bool := ws ≠ ["asslice"] || (field obs "nonnil" == some "1" && field obs "fresh" == some "1")
     match ws with
-    | "new" :: kind :: rest =>
+    | "new" :: kind0 :: rest =>
+      -- `box-` (element type: an uncomparable struct) and `conc-` (ConcurrentList wrapper) do not change the model
+      let kind := let k := if kind0.startsWith "box-" then (kind0.drop 4).toString else kind0
+                  if k.startsWith "conc-" then (k.drop 5).toString else k
       let init : Option (List Int) := match kind, rest with
         | "array", [_] => some []
         | "linked", [] => some []
